@@ -57,6 +57,11 @@ func (st *State) pickNext(kind string) {
 		st.fail("deadlock: all goroutines are blocked" + st.blockedSummary())
 	}
 	i := 0
+	if !st.p.Cfg.SchedFree && st.cur != nil && st.cur.yielding && len(rs) > 1 && rs[0] == st.cur {
+		// an explicit yield hands the processor to another runnable goroutine (the default pick would be the
+		// yielding goroutine itself when it has the lowest id)
+		i = 1
+	}
 	if st.p.Cfg.SchedFree && len(rs) > 1 && st.devLeft != 0 {
 		i = st.choose(len(rs))
 		if i > 0 && st.devLeft > 0 {
